@@ -74,6 +74,10 @@ pub fn sanitize(s: &str) -> String {
                 }
                 out.push(' ');
                 i = j;
+            } else if power && !matches!(cs.get(j), Some(c) if c.is_alphanumeric() || matches!(c, '(' | '{' | '.' | '°' | '\'')) {
+                // nothing that could evaluate to a number follows (end of input, a closing bracket, an
+                // operator, a blank that is not followed by a value ...): the operator is left dangling as
+                // written — the evaluator must answer with a located error
             } else if power {
                 // something else follows: give the operator a small exponent of its own
                 // (counted against the same product bound)
@@ -292,6 +296,35 @@ pub fn profile() -> &'static str {
     }
 }
 
+/// Two or three quantities at the special points of the unit system (absolute zero on every scale, zero,
+/// one, the freezing point, a tiny and a huge magnitude) joined by operators, optionally cast: the
+/// neighbourhoods where a conversion turns a non-zero literal into zero or a zero into something else.
+fn special_quantities() -> impl Strategy<Value = String> {
+    let q = prop_oneof![
+        Just("-273.15 °C"), Just("-459.67 °F"), Just("0 K"), Just("0 °C"), Just("32 °F"), Just("0 °F"), Just("-273.15 celsius"), Just("273.15 K"),
+        Just("0 m"), Just("-0 kg"), Just("0.0 s"), Just("1 K"), Just("1 m"), Just("3 J"), Just("1 kg"), Just("2 N"), Just("1e-300 m"), Just("1e300 s"),
+        Just("0"), Just("1"), Just("-1"), Just("0%"), Just("-273.15"), Just("(0 K)"), Just("(-273.15 °C to K)"), Just("(1 - 1) m"),
+    ];
+    let op = prop_oneof![3 => Just(" / "), 2 => Just(" * "), 1 => Just(" + "), 1 => Just(" - "), 1 => Just("/"), 1 => Just(" ^ ")];
+    let cast = prop::option::weighted(0.3, prop_oneof![Just("K"), Just("°C"), Just("°F"), Just("kg/K"), Just("1/K"), Just("m/K"), Just("J/°C"), Just("m"), Just("K^-1")]);
+    (q.clone(), prop::collection::vec((op, q), 1..=3), cast, prop::option::weighted(0.2, -3i32..=3)).prop_map(|(a, rest, cast, p)| {
+        let mut s = a.to_string();
+        for (o, b) in rest {
+            if o == " ^ " {
+                s = format!("({}) ^ {}", s, p.unwrap_or(-1));
+            } else {
+                s.push_str(o);
+                s.push_str(b);
+            }
+        }
+        if let Some(c) = cast {
+            s.push_str(" to ");
+            s.push_str(c);
+        }
+        s
+    })
+}
+
 /// Towers of two-digit powers over a quantity whose value is 0, 1 or -1 (so the exact answer stays tiny
 /// whatever the exponents are): `(((1 m^12)^-34)^56)^78`.  Not sanitised — the unit's power may leave i32.
 fn power_tower() -> impl Strategy<Value = String> {
@@ -316,7 +349,7 @@ fn power_tower() -> impl Strategy<Value = String> {
 }
 
 pub fn run_check(ctx: &Ctx, child: bool) {
-    ctx.set_rule("inputs: arbitrary Unicode strings, printable-ASCII noise, token soups of up to 40 tokens (numbers, vocabulary words, operators, parentheses, braces, commas, %, to, function names, fact words, multi-byte and unknown characters, Unicode blanks) well-formed expressions with one or two token mutations, and towers of up to seven two-digit powers over a quantity of value 0, 1 or -1 (the unit's power may leave i32; the value stays tiny); every input is passed through a sanitiser that enforces the stated bounds (power operator followed by an integer of <= 2 digits with product <= 1000, <= 2 digits after a comma, literal exponents of <= 3 digits); oracle: no panic, parse succeeds, the result sequence ends, every value displays, every error has a message and a range inside the input on char boundaries; run in a debug-assertion build and in a release build, plus a sample through the real binary; non-trivial = >= 3 tokens and at least one result that is not a plain syntax error; distinct by input text (per profile)");
+    ctx.set_rule("inputs: arbitrary Unicode strings, printable-ASCII noise, token soups of up to 40 tokens (numbers, vocabulary words, operators, parentheses, braces, commas, %, to, function names, fact words, multi-byte and unknown characters, Unicode blanks) well-formed expressions with one or two token mutations, products/quotients/sums/casts of quantities at the special points of the unit system (absolute zero on every scale, zero, tiny and huge magnitudes), and towers of up to seven two-digit powers over a quantity of value 0, 1 or -1 (the unit's power may leave i32; the value stays tiny); every input is passed through a sanitiser that enforces the stated bounds (power operator followed by an integer of <= 2 digits with product <= 1000 — an operator with nothing that could be a value behind it is left dangling as written — <= 2 digits after a comma, literal exponents of <= 3 digits); oracle: no panic, parse succeeds, the result sequence ends, every value displays, every error has a message and a range inside the input on char boundaries; run in a debug-assertion build and in a release build, plus a sample through the real binary; non-trivial = >= 3 tokens and at least one result that is not a plain syntax error; distinct by input text (per profile)");
     ctx.assume("a watchdog (30 s per case) turns a hang into exit 2 (inconclusive), never a violation");
     let corpus: Vec<(String, StrCase)> = load_corpus("C11");
     let cases: Vec<StrCase> = corpus.into_iter().map(|c| c.1).collect();
@@ -324,6 +357,7 @@ pub fn run_check(ctx: &Ctx, child: bool) {
     let n = ctx.tier.pick(200_000u64, 4_000_000);
     ctx.run_gen("soup", || soup().prop_map(|input| StrCase { input }), n, |c| check_str(shared_db(), &c.input), |c| to_json(c));
     ctx.run_gen("mutated-well-formed", || mutated().prop_map(|input| StrCase { input }), n / 2, |c| check_str(shared_db(), &c.input), |c| to_json(c));
+    ctx.run_gen("special-quantities", || special_quantities().prop_map(|input| StrCase { input }), n / 8, |c| check_str(shared_db(), &c.input), |c| to_json(c));
     ctx.run_gen("unit-power-towers", || power_tower().prop_map(|input| StrCase { input }), n / 8, |c| check_str(shared_db(), &c.input), |c| to_json(c));
     ctx.run_gen("ascii-noise", || "[ -~]{0,40}".prop_map(|s| StrCase { input: sanitize(&s) }), n / 4, |c| check_str(shared_db(), &c.input), |c| to_json(c));
     ctx.run_gen("unicode", || "\\PC{0,30}".prop_map(|s| StrCase { input: sanitize(&s) }), n / 8, |c| check_str(shared_db(), &c.input), |c| to_json(c));
